@@ -30,7 +30,16 @@ package inference
 //@ define (valOK v) (and (or (isDet v) (isUndet v))
 //@   (=> (isDet v) (and (not (= (as v *DeterminedVal) nil)) (ebKnown (detBool v))))
 //@   (=> (isUndet v) (and (not (= (undet v) nil)) (omOK (. (undet v) Implicates)) (omOK (. (undet v) Implicants)))))
-//@ define (imOK i) (and (not (= i nil)) (omOK i.mapping) (forall ((s primitiveSite)) (=> (imHas i s) (valOK (imVal i s)))))
+//@ -- Separation of the per-site implication lists: two lists of the map are the same object or share nothing
+//@ -- (index map, backing array, pair objects).  It holds of every map built by StoreImplication, copy and the gob
+//@ -- decoder; it is part of imOK.
+//@ define (listSep a b) (or (= a b) (and (not (= a.inner b.inner)) (or (isnil a.Pairs) (isnil b.Pairs) (not (= (arrof a.Pairs) (arrof b.Pairs))))
+//@    (forall ((x Int) (y Int)) (=> (and (omInRange a x) (omInRange b y)) (not (= (omPair a x) (omPair b y)))))))
+//@ define (siteLists i s) (and (imHas i s) (isUndet (imVal i s)))
+//@ define (imSep i) (forall ((s primitiveSite) (t primitiveSite)) (=> (and (siteLists i s) (siteLists i t))
+//@    (and (listSep (. (undet (imVal i s)) Implicates) (. (undet (imVal i t)) Implicates)) (listSep (. (undet (imVal i s)) Implicates) (. (undet (imVal i t)) Implicants))
+//@         (listSep (. (undet (imVal i s)) Implicants) (. (undet (imVal i t)) Implicates)) (listSep (. (undet (imVal i s)) Implicants) (. (undet (imVal i t)) Implicants)))))
+//@ define (imOK i) (and (not (= i nil)) (omOK i.mapping) (forall ((s primitiveSite)) (=> (imHas i s) (valOK (imVal i s)))) (imSep i))
 //@ -- det: 0 = absent, 1 = undetermined, 2 = nilable (true), 3 = nonnil (false)
 //@ define (det i s) (ite (not (imHas i s)) 0 (ite (isUndet (imVal i s)) 1 (ite (ebVal (detBool (imVal i s))) 2 3)))
 
@@ -109,20 +118,8 @@ package inference
 //@    (and (= (det e.inferredMap t) (old (det e.inferredMap t))) (= (imVal e.inferredMap t) (old (imVal e.inferredMap t))) (= (detBool (imVal e.inferredMap t)) (old (detBool (imVal e.inferredMap t)))))))
 //@ define (sameEngine e) (and (= e.inferredMap (old e.inferredMap)) (= e.diagnosticEngine (old e.diagnosticEngine)) (= e.primitive (old e.primitive)))
 
-//@ -- Separation of the per-site implication lists: two lists of the map are the same object or share nothing
-//@ -- (index map, backing array, pair objects).  It holds of every map built by StoreImplication, copy and the gob
-//@ -- decoder; it is ASSUMED at the entry of StoreImplication (not yet carried by imOK through the whole engine),
-//@ -- and proved to be what the body needs and to be kept by its loop.
-//@ define (listSep a b) (or (= a b) (and (not (= a.inner b.inner)) (or (isnil a.Pairs) (isnil b.Pairs) (not (= (arrof a.Pairs) (arrof b.Pairs))))
-//@    (forall ((x Int) (y Int)) (=> (and (omInRange a x) (omInRange b y)) (not (= (omPair a x) (omPair b y)))))))
-//@ define (siteLists i s) (and (imHas i s) (isUndet (imVal i s)))
-//@ define (imSep i) (forall ((s primitiveSite) (t primitiveSite)) (=> (and (siteLists i s) (siteLists i t))
-//@    (and (listSep (implicatesOf i s) (implicatesOf i t)) (listSep (implicatesOf i s) (implicantsOf i t))
-//@         (listSep (implicantsOf i s) (implicatesOf i t)) (listSep (implicantsOf i s) (implicantsOf i t)))))
 //@ func (*InferredMap).StoreImplication
 //@ prop C05
-//@ assume lists-of-different-sites-share-nothing (imSep i)
-//@ loop 0 invariant lists-stay-separate (imSep i)
 //@ requires (and (imOK i) (<= (det i from) 1) (<= (det i to) 1))
 //@ modifies (obj i.mapping) (map i.mapping.inner) (elems i.mapping.Pairs) (obj (omPair i.mapping 0)) (obj (implOf i)) (map (. (implOf i) inner)) (elems (. (implOf i) Pairs)) (obj (omPair (implOf i) 0))
 //@ ensures ok-after (imOK i)
